@@ -29,7 +29,7 @@ INV_WHAT = {
 
 def validate(ctx, path, stage):
     return ctx.tlc("FsBinlogTrace", "FsBinlogTrace.cfg", workers=1, files={"trace.ndjson": path},
-                   timeout=3000, name=stage, expect_violation=True, heap="6g")
+                   timeout=3000, name=stage, expect_violation=True, heap="4g")
 
 
 def split_trace(ctx, path, nparts):
@@ -84,15 +84,15 @@ def run(ctx):
     #    the three TLC runs and the build of the driver are independent and run side by side
     with concurrent.futures.ThreadPoolExecutor(max_workers=4) as ex:
         f_mc = ex.submit(ctx.tlc, "FsBinlogMC", "FsBinlog_mc_big.cfg" if th else "FsBinlog_mc.cfg",
-                         timeout=3000 if th else 900, coverage=th, name="reader/damage model", workers=max(2, NCPU // 2),
+                         timeout=3000 if th else 900, coverage=th, name="reader/damage model", workers=max(2, NCPU // 2), heap="4g",
                          constants={"CrcEvery": 64, "Chunks": [100, 170, 1000000], "Lens": [12, 21, 50],
                                     "MaxOps": 6 if th else 5})
         f_fine = ex.submit(ctx.tlc, "FsBinlogMC", "FsBinlog_fine_big.cfg" if th else "FsBinlog_fine.cfg",
                            timeout=3000 if th else 900, coverage=th, name="writer loop at system call granularity",
-                           workers=max(2, NCPU // 4),
+                           workers=max(2, NCPU // 4), heap="6g",
                            constants={"CrcEvery": 64, "Chunks": [100, 1000000], "Lens": [12, 50], "MaxOps": 6 if th else 4})
         f_beh = ex.submit(ctx.tlc, "FsBinlogMC", "FsBinlog_beh_big.cfg" if th else "FsBinlog_beh.cfg", timeout=900,
-                          name="behaviour export", workers=max(2, NCPU // 4))
+                          name="behaviour export", workers=max(2, NCPU // 4), heap="4g")
         f_bin = ex.submit(ctx.go_build_test, "internal/vkgo/binlog/fsbinlog")
         mc, fine, beh = f_mc.result(), f_fine.result(), f_beh.result()
         f_bin.result()
@@ -112,9 +112,9 @@ def run(ctx):
         if any(x.get("a") == "Restart" for x in b): s += 1
         return -s
     full.sort(key=score)
-    ntake = 400 if th else 90
+    ntake = 300 if th else 90
     take = full[: ntake // 2] + rnd.sample(full[ntake // 2:], min(len(full) - ntake // 2, ntake - ntake // 2)) if len(full) > ntake else full
-    env = {"VERIF_NRANDOM": 180 if th else 30,
+    env = {"VERIF_NRANDOM": 150 if th else 30,
            "VERIF_C18_TRUNC": 40 if th else 16, "VERIF_C18_FLIP": 70 if th else 30, "VERIF_C18_READ": 12 if th else 6,
            "VERIF_C18_ALLBELOW": 420 if th else 0, "VERIF_C18_ALLWORLDS": 30, "VERIF_C18_OSEVERY": 10}
     res, out, rc = ctx.go_test("internal/vkgo/binlog/fsbinlog", "TestVerifC18", inp=take, env=env, timeout=2400)
